@@ -319,3 +319,23 @@ PROPS["C02"] = Prop(
     technique="runtime monitor: history executor with per-step well-formedness oracle, before/after canonical dumps and identity persistence table, under gcc ASan+UBSan+LSan",
     level_text="exploration: random histories; every step is followed by the independent WF oracle, the built-in checker and the unchanged/persistence monitors",
 )
+
+
+PROPS["C08"] = Prop(
+    "C08",
+    [Stage("asan", "c08_restrict", "asan", quick=5000, thorough=120000, per_worker_env=xml_backend_env)],
+    rule=("one topology per case (synthetic or corpus XML incl. PCI/OS devices under I/O filters ALL/IMPORTANT, random configuration, "
+          "0-7 inserted Misc objects) then 1-4 successive restricts with generated sets (empty, infinite, superset, disjoint, one "
+          "object, all but one object, complement, first bit, random subsets) and all 32 flag words (+ unknown bits); each call is "
+          "compared with a before/after model keyed by gp_index: root/complete/allowed sets, exact PU set, per-object sets = old minus "
+          "dropped resources, who may disappear (NUMA, PU, normal objects vs mergeable levels), Misc/I-O re-attachment vs ADAPT flags, "
+          "EINVAL conditions and unchanged CANON. distinct+non-trivial = class 1: successful restricts that removed a non-leaf object "
+          "or re-attached a special child, keyed by (shape after, flag word, removed-type set)"),
+    nontrivial_classes=[1], floor=200,
+    assumptions=COMMON_ASSUME + [
+        "a normal object with remaining PUs/NUMA nodes may vanish only if its type filter is KEEP_STRUCTURE (or Die/Package): level merging as at load time",
+        "Misc/I-O children of an object removed through a level merge are kept with or without ADAPT flags; 'closest surviving ancestor' / "
+        "'dropped' is demanded only for parents removed because nothing remained below them; the merge partner (same cpuset) is accepted as new parent"],
+    technique="runtime monitor: before/after reference model of hwloc_topology_restrict keyed by gp_index with SET arithmetic, plus WF and CANON-unchanged oracles, under gcc ASan+UBSan+LSan",
+    level_text="exploration: generated topologies x sets x all flag words, applied once and repeatedly; every call is checked against the documented effect computed independently",
+)
